@@ -512,19 +512,23 @@ def check_input(reg, c, args):
             return None
         return {"clause": "no other exception escapes", "observed": f"raised {en}: {raised}"[:300]}
     sp.env["result"] = result
+    prop = os.environ.get("VERIF_CURRENT_PROP")
     for exc, cond in c.raises.items():
+        if not c.clause_relevant("must-raise/" + exc, prop):
+            continue
         try:
             if sp.truth(cond):
                 return {"clause": f"must raise {exc} when: {cond}", "observed": f"returned {result!r}"[:300]}
         except (NotEvaluable, IndexOutside):
             pass
     for cond in c.must_raise:
+        if not c.clause_relevant("must-raise/", prop):
+            continue
         try:
             if sp.truth(cond):
                 return {"clause": f"must raise when: {cond}", "observed": f"returned {result!r}"[:300]}
         except (NotEvaluable, IndexOutside):
             pass
-    prop = os.environ.get("VERIF_CURRENT_PROP")
     for name, text in c.ensures:
         if name.startswith("def:"):
             continue
